@@ -11,29 +11,36 @@ CONSTANTS Pre,       \* room in front of freshly allocated data (manager prepend
           Letters,   \* octets used by poke / scan / find / match
           InitSet,   \* "none" | "one" | "two": blocks already allocated in the initial states
           ObsLast,   \* TRUE: observers only as the last call of a behaviour (exhaustive emission)
-          Rand       \* TRUE (simulation only): offsets / sizes / octets are drawn at random
+          Rand,      \* TRUE (simulation only): offsets / sizes / octets are drawn at random
                      \* (3 out of 4 inside the block) instead of enumerated
+          LastOps,   \* if not empty: the last call of a behaviour is one of these
+          LastSz,    \* if not empty: the sizes asked by the last call
+          Dom        \* "all" | "in": "in" keeps offsets and sizes inside the block
 
 AllocPats ==
   CASE PatSet = "small" -> {<<>>, <<0>>, <<0, 1>>, <<0, 1, 1>>}
     [] PatSet = "c02"   -> {<<0, 1>>, <<0, 1, 0>>}
+    [] PatSet = "q"     -> {<<0, 1, 0>>}
     [] PatSet = "sim"   -> {<<>>, <<1>>, <<0, 1>>, <<0, 1, 2>>, <<0, 1, 2, 0>>, <<1, 1, 0, 2, 1>>, <<2, 0, 1, 1, 0, 2>>}
 
 NewH == CHOOSE d \in Handles \ Live : \A e \in Handles \ Live : d <= e
 HasFree == Live # Handles
 Pick(S) == IF Rand THEN {RandomElement(S)} ELSE S
 Inside(n) == IF n = 0 THEN {0} ELSE (-n)..(n - 1)
+IsLast == step = Depth - 1
 Offs(h) == IF Rand
-           THEN {IF RandomElement(1..4) = 1 THEN RandomElement((-(Size(h) + 2))..(Size(h) + 2))
-                                            ELSE RandomElement(Inside(Size(h)))}
-           ELSE (-(Size(h) + 1))..(Size(h) + 1)
-Szs(h) == IF Rand
-          THEN {IF RandomElement(1..4) = 1 THEN RandomElement(-1..(Size(h) + 2))
+           THEN {IF Dom = "all" /\ RandomElement(1..4) = 1
+                 THEN RandomElement((-(Size(h) + 2))..(Size(h) + 2))
+                 ELSE RandomElement(Inside(Size(h)))}
+           ELSE IF Dom = "in" THEN Inside(Size(h)) ELSE (-(Size(h) + 1))..(Size(h) + 1)
+Szs(h) == IF IsLast /\ LastSz # {} THEN LastSz
+          ELSE IF Rand
+          THEN {IF Dom = "all" /\ RandomElement(1..4) = 1 THEN RandomElement(-1..(Size(h) + 2))
                                            ELSE RandomElement(-1..((Size(h) + 1) \div 2))}
-          ELSE -1..(Size(h) + 1)
+          ELSE IF Dom = "in" THEN -1..Size(h) ELSE -1..(Size(h) + 1)
 Starts(h) == Pick(0..(Size(h) + 1))
-On(op) == op \in Ops
-ObsOn(op) == op \in Ops /\ (ObsLast => step = Depth - 1)
+On(op) == op \in Ops /\ ((IsLast /\ LastOps # {}) => op \in LastOps)
+ObsOn(op) == On(op) /\ (ObsLast => IsLast)
 FindWords == {<<a, b>> : a \in Letters, b \in Letters} \cup {<<0, 1, 1>>, <<1, 0, 1>>}
 MatchArgs == {<<<<0>>, <<15>>>>, <<<<0, 1>>, <<15, 15>>>>, <<<<1>>, <<1>>>>, <<<<0, 0>>, <<0, 2>>>>,
               <<<<>>, <<>>>>, <<<<0, 1, 0>>, <<15, 1, 0>>>>}
@@ -43,34 +50,56 @@ MatchArgs == {<<<<0>>, <<15>>>>, <<<<0, 1>>, <<15, 15>>>>, <<<<1>>, <<1>>>>, <<<
 Finish == /\ step = Depth /\ step' = Depth + 1
           /\ UNCHANGED <<areas, hs, str, fresh, last, mayChange, hist>>
 
-Calls ==
-  /\ step < Depth
-  /\ \/ On("alloc") /\ HasFree /\ \E p \in Pick(AllocPats) : Alloc(NewH, p, Pre)
-     \/ \E h \in Live :
-          \/ On("dup") /\ HasFree /\ Dup(NewH, h)
-          \/ On("splice") /\ HasFree /\ \E off \in Offs(h), sz \in Szs(h) : Splice(NewH, h, off, sz)
-          \/ On("split") /\ HasFree /\ \E off \in Offs(h) : Split(NewH, h, off)
-          \/ On("copy") /\ HasFree /\ \E sk \in Offs(h), sz \in Szs(h) : Copy(NewH, h, sk, sz, Pre)
-          \/ On("merge") /\ \E sk \in Offs(h), sz \in Szs(h) : Merge(h, sk, sz, Pre)
-          \/ On("append") /\ \E g \in Live \ {h} : AppendBlk(h, g)
-          \/ On("insert") /\ \E g \in Live \ {h}, off \in Offs(h) : Insert(h, off, g)
-          \/ On("delete") /\ \E off \in Offs(h), sz \in Szs(h) : Delete(h, off, sz)
-          \/ On("truncate") /\ \E t \in Starts(h) : Truncate(h, t)
-          \/ On("resize") /\ \E sk \in Offs(h), sz \in Szs(h) : Resize(h, sk, sz)
-          \/ On("prepend") /\ \E k \in Pick(0..(Pre + 1)) : Prepend(h, k)
-          \/ On("wmap") /\ \E off \in Offs(h), gr \in BOOLEAN : Write("wmap", h, off, 0, gr)
-          \/ On("poke") /\ \E off \in Offs(h), v \in Pick(Letters), gr \in BOOLEAN : Write("poke", h, off, v, gr)
-          \/ On("free") /\ Free(h)
-          \/ ObsOn("size") /\ ObsSize(h)
-          \/ \E op \in {"read", "peek", "extract", "iovec"} :
-                ObsOn(op) /\ \E off \in Offs(h), sz \in Szs(h) : ObsRange(op, h, off, sz)
-          \/ ObsOn("rd1") /\ \E off \in Offs(h), sz \in Szs(h) : ObsRd1(h, off, sz)
-          \/ ObsOn("slin") /\ \E off \in Offs(h) : ObsSlin(h, off)
-          \/ ObsOn("scan") /\ \E st \in Starts(h), w \in Pick(Letters) : ObsScan(h, st, w)
-          \/ ObsOn("find") /\ \E st \in Starts(h), ws \in Pick(FindWords) : ObsFind(h, st, ws)
-          \/ ObsOn("compare") /\ \E g \in Live, off \in Starts(h) : ObsCompare(h, off, g)
-          \/ ObsOn("equal") /\ \E g \in Live : ObsEqual(h, g)
-          \/ ObsOn("match") /\ \E fm \in Pick(MatchArgs) : ObsMatch(h, fm[1], fm[2])
+CAlloc == step < Depth /\ On("alloc") /\ HasFree /\ \E p \in Pick(AllocPats) : Alloc(NewH, p, Pre)
+CDup == step < Depth /\ \E h \in Live : On("dup") /\ HasFree /\ Dup(NewH, h)
+CSplice == step < Depth /\ \E h \in Live : On("splice") /\ HasFree /\ \E off \in Offs(h), sz \in Szs(h) : Splice(NewH, h, off, sz)
+CSplit == step < Depth /\ \E h \in Live : On("split") /\ HasFree /\ \E off \in Offs(h) : Split(NewH, h, off)
+CCopy == step < Depth /\ \E h \in Live : On("copy") /\ HasFree /\ \E sk \in Offs(h), sz \in Szs(h) : Copy(NewH, h, sk, sz, Pre)
+CMerge == step < Depth /\ \E h \in Live : On("merge") /\ \E sk \in Offs(h), sz \in Szs(h) : Merge(h, sk, sz, Pre)
+CAppend == step < Depth /\ \E h \in Live : On("append") /\ \E g \in Live \ {h} : AppendBlk(h, g)
+CInsert == step < Depth /\ \E h \in Live : On("insert") /\ \E g \in Live \ {h}, off \in Offs(h) : Insert(h, off, g)
+CDelete == step < Depth /\ \E h \in Live : On("delete") /\ \E off \in Offs(h), sz \in Szs(h) : Delete(h, off, sz)
+CTruncate == step < Depth /\ \E h \in Live : On("truncate") /\ \E t \in Starts(h) : Truncate(h, t)
+CResize == step < Depth /\ \E h \in Live : On("resize") /\ \E sk \in Offs(h), sz \in Szs(h) : Resize(h, sk, sz)
+CPrepend == step < Depth /\ \E h \in Live : On("prepend") /\ \E k \in Pick(0..(Pre + 1)) : Prepend(h, k)
+CWmap == step < Depth /\ \E h \in Live : On("wmap") /\ \E off \in Offs(h), gr \in BOOLEAN : Write("wmap", h, off, 0, gr)
+CPoke == step < Depth /\ \E h \in Live : On("poke") /\ \E off \in Offs(h), v \in Pick(Letters), gr \in BOOLEAN : Write("poke", h, off, v, gr)
+CFree == step < Depth /\ \E h \in Live : On("free") /\ Free(h)
+CSize == step < Depth /\ \E h \in Live : ObsOn("size") /\ ObsSize(h)
+CRange == step < Depth /\ \E h \in Live : \E op \in {"read", "peek", "extract", "iovec"} :
+            ObsOn(op) /\ \E off \in Offs(h), sz \in Szs(h) : ObsRange(op, h, off, sz)
+CRd1 == step < Depth /\ \E h \in Live : ObsOn("rd1") /\ \E off \in Offs(h), sz \in Szs(h) : ObsRd1(h, off, sz)
+CSlin == step < Depth /\ \E h \in Live : ObsOn("slin") /\ \E off \in Offs(h) : ObsSlin(h, off)
+CScan == step < Depth /\ \E h \in Live : ObsOn("scan") /\ \E st \in Starts(h), w \in Pick(Letters) : ObsScan(h, st, w)
+CFind == step < Depth /\ \E h \in Live : ObsOn("find") /\ \E st \in Starts(h), ws \in Pick(FindWords) : ObsFind(h, st, ws)
+CCompare == step < Depth /\ \E h \in Live : ObsOn("compare") /\ \E g \in Live, off \in Starts(h) : ObsCompare(h, off, g)
+CEqual == step < Depth /\ \E h \in Live : ObsOn("equal") /\ \E g \in Live : ObsEqual(h, g)
+CMatch == step < Depth /\ \E h \in Live : ObsOn("match") /\ \E fm \in Pick(MatchArgs) : ObsMatch(h, fm[1], fm[2])
+
+Calls == CAlloc
+         \/ CDup
+         \/ CSplice
+         \/ CSplit
+         \/ CCopy
+         \/ CMerge
+         \/ CAppend
+         \/ CInsert
+         \/ CDelete
+         \/ CTruncate
+         \/ CResize
+         \/ CPrepend
+         \/ CWmap
+         \/ CPoke
+         \/ CFree
+         \/ CSize
+         \/ CRange
+         \/ CRd1
+         \/ CSlin
+         \/ CScan
+         \/ CFind
+         \/ CCompare
+         \/ CEqual
+         \/ CMatch
 
 \* initial states: some blocks already allocated (their alloc calls are in hist)
 InitBlocks == CASE InitSet = "none" -> {<<>>}
@@ -90,13 +119,14 @@ MCInit ==
                                              <<>>, TRUE, TRUE, FALSE)]
               ELSE <<>>
 
-MCNext == Calls \/ Finish
+MCNext == CAlloc \/ CDup \/ CSplice \/ CSplit \/ CCopy \/ CMerge \/ CAppend \/ CInsert \/ CDelete \/ CTruncate \/ CResize \/ CPrepend \/ CWmap \/ CPoke \/ CFree \/ CSize \/ CRange \/ CRd1 \/ CSlin \/ CScan \/ CFind \/ CCompare \/ CEqual \/ CMatch \/ Finish
 MCSpec == MCInit /\ [][MCNext]_vars
 
 Bounded == \A h \in Live : Size(h) <= MaxLen /\ Len(hs[h]) <= MaxWins
 
 NH == Cardinality(Handles)
+Compact(r) == <<r.op, r.args, r.ib, r.ib2, r.res, r.n, r.b, r.nx, r.bx, r.u>>
 Emit == step = Depth + 1 =>
-  PrintT(<<"BEH", ToJson([hist |-> hist,
+  PrintT(<<"BEH", ToJson([hist |-> [i \in 1..Len(hist) |-> Compact(hist[i])],
                           fin |-> [i \in 1..NH |-> IF (i - 1) \in Live THEN str[i - 1] ELSE <<-1>>]])>>)
 =============================================================================
